@@ -11,7 +11,7 @@ From Anthem Require Import Base.ISet Syntax.Fol Syntax.Asp
   Model.StrategyCls Model.ExternalFull Model.ClsTerm
   Proofs.StrategyClsOk Proofs.SimplFull Proofs.SimplClassicTotal Proofs.ParserImage Proofs.ParserImagePipeline
   Proofs.NoPanic Proofs.ExtFuel Proofs.C19Ext
-  Proofs.TaskPipelineBn Proofs.TaskPipelineClosed Proofs.TaskPipelineTrans Proofs.TaskPipelineStrong Proofs.TaskPipelineExt.
+  Proofs.TaskPipelineBn Proofs.TaskPipelineFv Proofs.TaskPipelineClosed Proofs.TaskPipelineTrans Proofs.TaskPipelineStrong Proofs.TaskPipelineExt.
 Import ListNotations.
 Open Scope string_scope.
 Open Scope list_scope.
@@ -22,10 +22,9 @@ Proof.
   - exact (run_strategy_opt_pi fuel _ _ Fixpoint_ F G ext_FULL_CLASSIC_opt_safe Hp E).
   - apply closed_iff in Hc. destruct Hc as [Hb Hf]. apply closed_iff.
     apply (run_strategy_opt_refines fuel _ _ Fixpoint_ F G ext_FULL_CLASSIC_opt_refines) in E.
-    pose proof (full_classic_strategies fuel Fixpoint_ F G E) as [_ Hi].
     cbn [run_strategy] in E. split.
     + exact (apply_fixpoint_bn _ _ _ _ portfolio_full_bn Hb E).
-    + exact (fv_nil_incl F G Hi Hf).
+    + exact (fv_nil_incl F G (full_fixpoint_fv _ _ _ E) Hf).
 Qed.
 Lemma simplify_status_done fuel : forall th, simplify_status fuel th = TDone ->
   forall F, In F th -> exists G, simp_classic_run fuel F = RDone G.
